@@ -527,46 +527,62 @@ def judge_case_scope(case, resp, run, call_index):
 # value pools (values the call path reproduces exactly: measured with a middleware-free call)
 
 def probe_rpc(rng, prog, lb, targets, k):
-    reqs, meta = [], []
+    """fill t["arg_pool"], t["res_pool"], t["exc_pool"] with wire values that a middleware-free call through the
+    generated client, the wire and the generated processor hands over unchanged; a value that arrives normalised
+    (nil container -> empty, ...) is tried again in its normalised form"""
+    items = []
     for t in targets:
         m = t["m"]
         t["arg_pool"] = [[] for _ in m["args"]]
         t["res_pool"] = []
         t["exc_pool"] = []
         excs = exc_specs(rng, prog, lb, m)
-        for j in range(k):
+        for j in range(k + len(excs)):
             args = [L.to_wire(prog, a["type"], L.gen_value(rng, prog, a["type"])) for a in m["args"]]
             ret = L.to_wire(prog, m["ret"], L.gen_value(rng, prog, m["ret"])) if m["ret"] is not None else None
-            herr = excs[j] if j < len(excs) else None
-            reqs.append(base_rpc(t, args, ret, herr))
-            meta.append((t, args, ret, herr))
-    resps = lb.run(reqs)
+            herr = excs[j - k] if j >= k else None
+            items.append((t, args, ret, herr))
     stats = collections.Counter()
-    for (t, args, ret, herr), r in zip(meta, resps):
-        if r.get("code") != 0 or not r.get("runs") or r["runs"][0]["panic"] is not None:
-            stats["probe_rejected"] += 1
-            continue
-        run = r["runs"][0]
-        hev = [e for e in run["events"] if e[0] == "core" and e[1] == "handler"]
-        if len(hev) == 1:
-            for i, (a, seen) in enumerate(zip(r["built"]["args"], hev[0][3][1:])):
-                if cj(a) == cj(seen):
-                    t["arg_pool"][i].append(args[i])
-                    stats["stable_arg"] += 1
+    for rnd in (1, 2):
+        resps = lb.run([base_rpc(t, args, ret, herr) for t, args, ret, herr in items])
+        again = []
+        for (t, args, ret, herr), r in zip(items, resps):
+            if r.get("code") != 0 or not r.get("runs") or r["runs"][0]["panic"] is not None:
+                stats["probe_rejected"] += 1
+                continue
+            run = r["runs"][0]
+            hev = [e for e in run["events"] if e[0] == "core" and e[1] == "handler"]
+            args2, ret2, herr2, retry = list(args), ret, None, False
+            if len(hev) == 1:
+                for i, (a, seen) in enumerate(zip(r["built"]["args"], hev[0][3][1:])):
+                    if cj(a) == cj(seen):
+                        if cj(args[i]) not in [cj(x) for x in t["arg_pool"][i]]:
+                            t["arg_pool"][i].append(args[i])
+                        stats["stable_arg_round%d" % rnd] += 1
+                    else:
+                        stats["unstable_arg_round%d" % rnd] += 1
+                        args2[i], retry = seen, True
+            if herr is None and t["m"]["ret"] is not None and not t["m"]["oneway"]:
+                if cj(run.get("ret")) == cj(r["built"]["ret"]) and run.get("err") is None:
+                    t["res_pool"].append(ret)
+                    stats["stable_ret_round%d" % rnd] += 1
                 else:
-                    stats["unstable_arg"] += 1
-        if herr is None and t["m"]["ret"] is not None and not t["m"]["oneway"]:
-            if cj(run.get("ret")) == cj(r["built"]["ret"]) and run.get("err") is None:
-                t["res_pool"].append(ret)
-                stats["stable_ret"] += 1
-            else:
-                stats["unstable_ret"] += 1
-        if herr is not None:
-            if cj(run.get("err")) == cj(r["built"]["herr"]):
-                t["exc_pool"].append(herr)
-                stats["stable_exc"] += 1
-            else:
-                stats["unstable_exc"] += 1
+                    stats["unstable_ret_round%d" % rnd] += 1
+                    if run.get("err") is None:
+                        ret2, retry = run.get("ret"), True
+            if herr is not None:
+                if cj(run.get("err")) == cj(r["built"]["herr"]):
+                    t["exc_pool"].append(herr)
+                    stats["stable_exc_round%d" % rnd] += 1
+                else:
+                    stats["unstable_exc_round%d" % rnd] += 1
+                    if isinstance(run.get("err"), dict) and run["err"].get("k") == "exc":
+                        herr2, retry = run["err"], True
+            if retry and rnd == 1:
+                again.append((t, args2, ret2, herr2))
+        items = again
+        if not items:
+            break
     return stats
 
 
@@ -588,25 +604,31 @@ VAR_POOL = ["u1", "bob", "x", "tenant-7", "Z", "a_b"]
 
 
 def probe_scope(rng, prog, lb, targets, k):
-    reqs, meta = [], []
+    items = []
     for t in targets:
         t["val_pool"] = []
         for j in range(k):
             v = L.to_wire(prog, t["op"]["type"], L.gen_value(rng, prog, t["op"]["type"]))
-            vars_ = [rng.choice(VAR_POOL) for _ in t["sc"]["vars"]]
-            reqs.append(base_scope(t, vars_, v, None, True))
-            meta.append((t, v))
+            items.append((t, v))
     stats = collections.Counter()
-    for (t, v), r in zip(meta, lb.run(reqs)):
-        if r.get("code") != 0 or not r.get("runs") or r["runs"][0]["panic"] is not None or "value" not in r.get("built", {}):
-            stats["probe_rejected"] += 1
-            continue
-        hev = [e for e in r["runs"][0]["events"] if e[0] == "core" and e[1] == "subhandler"]
-        if len(hev) == 1 and cj(hev[0][3][1]) == cj(r["built"]["value"]):
-            t["val_pool"].append(v)
-            stats["stable_value"] += 1
-        else:
-            stats["unstable_value"] += 1
+    for rnd in (1, 2):
+        reqs = [base_scope(t, [rng.choice(VAR_POOL) for _ in t["sc"]["vars"]], v, None, True) for t, v in items]
+        again = []
+        for (t, v), r in zip(items, lb.run(reqs)):
+            if r.get("code") != 0 or not r.get("runs") or r["runs"][0]["panic"] is not None or "value" not in r.get("built", {}):
+                stats["probe_rejected"] += 1
+                continue
+            hev = [e for e in r["runs"][0]["events"] if e[0] == "core" and e[1] == "subhandler"]
+            if len(hev) == 1 and cj(hev[0][3][1]) == cj(r["built"]["value"]):
+                t["val_pool"].append(v)
+                stats["stable_value_round%d" % rnd] += 1
+            else:
+                stats["unstable_value_round%d" % rnd] += 1
+                if len(hev) == 1 and rnd == 1:
+                    again.append((t, hev[0][3][1]))
+        items = again
+        if not items:
+            break
     return stats
 
 
